@@ -579,16 +579,37 @@ struct Project {
     files: BTreeMap<String, String>,
     /// does some operation file import a fragment from another file?
     has_import: bool,
+    /// the GraphQL inputs by kind (relative paths, keys of `files`); any directory layout
+    schema_files: Vec<String>,
+    op_files: Vec<String>,
+}
+
+impl Project {
+    /// the fixed layout `schema/*.graphql` + `ops/**/*.graphql` (corpus projects, replay files written before layouts varied)
+    fn classic(files: BTreeMap<String, String>, has_import: bool) -> Project {
+        let schema_files = files.keys().filter(|k| k.starts_with("schema/") && k.ends_with(".graphql")).cloned().collect();
+        let op_files = files.keys().filter(|k| k.starts_with("ops/") && k.ends_with(".graphql")).cloned().collect();
+        Project { files, has_import, schema_files, op_files }
+    }
 }
 
 fn project_to_json(p: &Project) -> Value {
-    json!({"kind": "project", "has_import": p.has_import, "files": p.files})
+    json!({"kind": "project", "has_import": p.has_import, "files": p.files, "schema_files": p.schema_files, "op_files": p.op_files})
 }
 fn project_from_json(v: &Value) -> Project {
-    Project {
-        files: v["files"].as_object().unwrap().iter().map(|(k, v)| (k.clone(), v.as_str().unwrap().to_string())).collect(),
-        has_import: v["has_import"].as_bool().unwrap_or(false),
+    let files: BTreeMap<String, String> = v["files"].as_object().unwrap().iter().map(|(k, v)| (k.clone(), v.as_str().unwrap().to_string())).collect();
+    let has_import = v["has_import"].as_bool().unwrap_or(false);
+    let list = |k: &str| -> Option<Vec<String>> { v[k].as_array().map(|a| a.iter().filter_map(|x| x.as_str().map(|s| s.to_string())).collect()) };
+    match (list("schema_files"), list("op_files")) {
+        (Some(schema_files), Some(op_files)) => Project { files, has_import, schema_files, op_files },
+        _ => Project::classic(files, has_import),
     }
+}
+
+/// order of `globmatch::match_paths` (= file store order within a kind): `PathBuf` ordering, component by component
+fn path_sorted(mut v: Vec<String>) -> Vec<String> {
+    v.sort_by(|a, b| Path::new(a).cmp(Path::new(b)));
+    v
 }
 
 fn config_yaml(mode: &str, schema_output: &str, resolvers: Option<&str>) -> String {
@@ -625,7 +646,7 @@ fn corpus_project() -> Project {
     files.insert("schema/main.graphql".into(), "type Query {\n  me: User!\n}\ntype User {\n  name: String\n}\n".into());
     files.insert("ops/q.graphql".into(), "#import F from \"./f.graphql\"\nquery Q {\n  me { ...F }\n}\n".into());
     files.insert("ops/f.graphql".into(), "fragment F on User {\n  name\n}\n".into());
-    Project { files, has_import: true }
+    Project::classic(files, true)
 }
 
 /// the smallest project where an astral character precedes a mapped token on its line (DESIGN §9-an)
@@ -634,7 +655,7 @@ fn corpus_project_astral() -> Project {
     files.insert("graphql.config.yaml".into(), config_yaml("with-loader-ts-5.0", "./schema.d.ts", None));
     files.insert("schema/main.graphql".into(), "type Query {\n  \"😀\" n: Int\n}\n".into());
     files.insert("ops/q.graphql".into(), "query Q {\n  n\n}\n".into());
-    Project { files, has_import: false }
+    Project::classic(files, false)
 }
 
 /// standalone mode prints the runtime document JSON inline; the mapped `TypedDocumentNode<Frag, never>`
@@ -644,7 +665,7 @@ fn corpus_project_standalone() -> Project {
     files.insert("graphql.config.yaml".into(), config_yaml("standalone-ts-4.0", "./schema.d.ts", None));
     files.insert("schema/main.graphql".into(), "type Query {\n  me: User!\n}\ntype User {\n  greet(text: String!): String!\n}\n".into());
     files.insert("ops/q.graphql".into(), "query Q {\n  me { ...F }\n}\nfragment F on User {\n  greet(text: \"こんにちは 👋\")\n}\n".into());
-    Project { files, has_import: false }
+    Project::classic(files, false)
 }
 
 /// the smallest project where a plugin contributes a schema addition (a virtual schema file in the file store
@@ -656,7 +677,7 @@ fn corpus_project_plugin() -> Project {
     files.insert("schema/b.graphql".into(), "type User @model(type: \"string\") {\n  name: String\n}\n".into());
     files.insert("ops/q.graphql".into(), "#import F from \"./f.graphql\"\nquery Q {\n  me { ...F }\n}\n".into());
     files.insert("ops/f.graphql".into(), "fragment F on User {\n  name\n}\n".into());
-    Project { files, has_import: true }
+    Project::classic(files, true)
 }
 
 const MODEL_PLUGIN: &str = "nitrogql:model-plugin";
@@ -993,9 +1014,19 @@ impl<'a> Ctx<'a> {
         }
         let mut all = vec![];
         walk(&root, &mut all);
-        let inputs: Vec<PathBuf> = p.files.keys().filter(|k| k.ends_with(".graphql")).map(|k| root.join(k)).collect();
-        let nschema = p.files.keys().filter(|k| k.starts_with("schema/")).count();
-        let nops = p.files.keys().filter(|k| k.starts_with("ops/")).count();
+        let inputs: Vec<PathBuf> = p.schema_files.iter().chain(p.op_files.iter()).map(|k| normalize(&root.join(k))).collect();
+        let nschema = p.schema_files.len();
+        let nops = p.op_files.len();
+        // paths of the config, normalised, relative to the project root
+        let cfg_path = |key: &str| -> Option<String> {
+            p.files.get("graphql.config.yaml").and_then(|c| c.lines().find_map(|l| l.trim().strip_prefix(&format!("{key}: ")).map(|x| normalize(Path::new(x.trim().trim_matches('"'))).to_string_lossy().to_string())))
+        };
+        let server_out = cfg_path("serverGraphqlOutput");
+        // the map of an operation file's declaration file: <stem><suffix> next to it
+        let suffixes = [".d.graphql.ts.map", ".graphql.d.ts.map", ".graphql.ts.map"];
+        let op_of_map = |rel: &str| -> Option<String> {
+            p.op_files.iter().find(|f| { let stem = f.trim_end_matches(".graphql"); suffixes.iter().any(|sx| rel == format!("{stem}{sx}")) }).cloned()
+        };
         let maps: Vec<&PathBuf> = all.iter().filter(|f| f.to_string_lossy().ends_with(".map")).collect();
         if maps.is_empty() {
             self.rep.fail("O", "e2e:no-map-emitted", "generate wrote no .map file", case.clone());
@@ -1010,10 +1041,10 @@ impl<'a> Ctx<'a> {
                 self.rep.count(&format!("e2e:project:mode:{mode}"));
             }
         }
-        if p.files.iter().any(|(k, v)| k.starts_with("ops/") && v.lines().any(|l| l.contains("$v") && l.contains("= \"") && !l.is_ascii())) {
+        if p.files.iter().any(|(k, v)| p.op_files.contains(k) && v.lines().any(|l| l.contains("$v") && l.contains("= \"") && !l.is_ascii())) {
             self.rep.count("e2e:project:variable-default-non-ascii");
         }
-        if p.files.iter().any(|(k, v)| k.starts_with("schema/") && v.contains("@model")) {
+        if p.files.iter().any(|(k, v)| p.schema_files.contains(k) && v.contains("@model")) {
             self.rep.count("e2e:project:schema-uses-plugin-directive");
         }
         if cfg_text.contains("plugins:") {
@@ -1022,7 +1053,12 @@ impl<'a> Ctx<'a> {
         // every generated declaration file has its map
         for f in &all {
             let s = f.to_string_lossy();
-            if (s.ends_with(".ts")) && !all.contains(&PathBuf::from(format!("{s}.map"))) {
+            // (serverGraphqlOutput is a runtime module, not a declaration file: it has no map)
+            let is_server_out = server_out.as_ref().map_or(false, |so| **f == root.join(so));
+            if is_server_out {
+                self.rep.count("e2e:server-graphql-output-written");
+            }
+            if (s.ends_with(".ts")) && !is_server_out && !all.contains(&PathBuf::from(format!("{s}.map"))) {
                 self.rep.fail("O", "e2e:declaration-without-map", &format!("{s} has no .map next to it"), case.clone());
             }
         }
@@ -1081,7 +1117,7 @@ impl<'a> Ctx<'a> {
                 src_texts.push(std::fs::read_to_string(&abs).unwrap_or_default());
             }
             // K: the `sources` list against the model of FileMap
-            let is_op = rel.starts_with("ops/") && rel.contains(".graphql");
+            let is_op = op_of_map(&rel).is_some();
             let mappings = v["mappings"].as_str().unwrap().to_string();
             reqs.push(Sexp::call("sm.check", vec![Sexp::str(generated.as_str()), Sexp::str(mappings.as_str()), Sexp::int(sources.len() as i128), Sexp::int(names.len() as i128)]));
             reqs.push(Sexp::call("sm.decode", vec![Sexp::str(mappings.as_str())]));
@@ -1090,22 +1126,16 @@ impl<'a> Ctx<'a> {
         }
         let ans = self.drv.batch(&reqs);
         // K for the file map: model's source list for every operation file and the schema outputs
-        let mut store: Vec<String> = p.files.keys().filter(|k| k.starts_with("schema/")).cloned().collect();
-        store.sort();
+        let mut store: Vec<String> = path_sorted(p.schema_files.clone());
         for _ in 0..n_virtual {
             store.push("(plugin)".to_string()); // FileKind::Schema, added by the plugin host after the files from disk
         }
         let nschema = nschema + n_virtual;
-        let mut opfiles: Vec<String> = p.files.keys().filter(|k| k.starts_with("ops/")).cloned().collect();
-        opfiles.sort();
-        store.extend(opfiles);
+        store.extend(path_sorted(p.op_files.clone()));
         let mut named_by_map: BTreeMap<String, Vec<(String, i128, String)>> = BTreeMap::new();
         for (i, (rel, sources, names, src_texts, is_op, generated, virtual_idx)) in metas.iter().enumerate() {
             // K: sources = model's sourceFiles
-            let own = store.iter().position(|f| {
-                let stem = f.trim_end_matches(".graphql");
-                *is_op && rel.starts_with(stem) && rel[stem.len()..].starts_with('.')
-            });
+            let own = if *is_op { op_of_map(rel).and_then(|o| store.iter().position(|f| *f == o)) } else { None };
             let req = match own {
                 Some(o) => {
                     let mut used: Vec<usize> = import_closure(p, &store[o]).iter().filter_map(|f| store.iter().position(|g| g == f)).collect();
@@ -1267,18 +1297,17 @@ impl<'a> Ctx<'a> {
             }
         }
         // ---- every definition has a named segment into its header (own and imported fragments included)
-        let suffixes = [".d.graphql.ts.map", ".graphql.d.ts.map", ".graphql.ts.map"];
-        let schema_out = p.files.get("graphql.config.yaml").and_then(|c| c.lines().find_map(|l| l.trim().strip_prefix("schemaOutput: ").map(|x| x.trim_start_matches("./").to_string()))).unwrap_or_default();
+        let schema_out = cfg_path("schemaOutput").unwrap_or_default();
         let has_seg = |map: &str, file: &str, line: usize, name: &str| -> bool {
             named_by_map.get(map).map_or(false, |v| v.iter().any(|(f, l, n)| f == file && *l == line as i128 && n == name))
         };
         let find_map = |stem: &str| -> Option<String> { suffixes.iter().map(|s| format!("{stem}{s}")).find(|m| metas.iter().any(|x| x.0 == *m)) };
-        for (file, text) in p.files.iter().filter(|(k, _)| k.ends_with(".graphql")) {
+        for (file, text) in p.files.iter().filter(|(k, _)| p.schema_files.contains(k) || p.op_files.contains(k)) {
             let mut in_type = false;
             for (ln, l) in text.lines().enumerate() {
                 let t = l.trim_start();
                 let word = |rest: &str| -> String { rest.chars().take_while(|c| c.is_alphanumeric() || *c == '_').collect() };
-                if file.starts_with("schema/") {
+                if p.schema_files.contains(file) {
                     let map = format!("{schema_out}.map");
                     if let Some(rest) = t.strip_prefix("type ") {
                         in_type = true;
@@ -1300,7 +1329,7 @@ impl<'a> Ctx<'a> {
                     let def = t.strip_prefix("query ").map(|r| ("operation", word(r))).or_else(|| t.strip_prefix("fragment ").map(|r| ("fragment", word(r))));
                     let Some((kind, n)) = def else { continue };
                     // the file's own map, and the map of every operation file that (transitively) imports it
-                    for other in p.files.keys().filter(|k| k.starts_with("ops/") && k.ends_with(".graphql")) {
+                    for other in p.op_files.iter() {
                         let own = other == file;
                         if !(own || (kind == "fragment" && import_closure(p, other).contains(file))) {
                             continue;
